@@ -75,3 +75,9 @@ package dkg
 //@   nosafety
 //@   modifies *
 //@   assert@call Marshal[C04.pubpoly.noshare] istype(v, "blsKeyringJSON") && len(v.(blsKeyringJSON).Share) == 0
+
+//@ func LoadBLSKeyringFromBytes
+//@   safety C18
+//@   nosafety
+//@   modifies *
+//@   ensures[C18.keyring.nonnil] result1 == nil ==> result0 != nil
